@@ -11,6 +11,8 @@
 #include <type_traits> 
 #include <utility>   
 #include <sstream>  
+#include <atomic>
+#include <mutex>
 
 namespace SplineTrajectory
 {
@@ -440,7 +442,10 @@ namespace SplineTrajectory
         mutable std::vector<SpatialVariableLayout> spatial_layout_;
         mutable int derivatives_offset_ = 0;
         mutable int total_dimension_ = 0;
-        mutable bool layout_dirty_ = true;
+        // The layout cache is filled lazily from const methods (evaluate, getDimension, ...), which may be
+        // called concurrently from several threads: the dirty flag is atomic and the rebuild is serialized.
+        mutable std::atomic<bool> layout_dirty_{true};
+        mutable std::mutex layout_mutex_;
         
         /**
          * @brief Helper method to retrieve or create the internal workspace.
@@ -457,7 +462,7 @@ namespace SplineTrajectory
 
         void markLayoutDirty()
         {
-            layout_dirty_ = true;
+            layout_dirty_.store(true, std::memory_order_release);
         }
 
         bool isSpatialOptimized(int idx) const
@@ -506,7 +511,7 @@ namespace SplineTrajectory
             {
                 derivatives_offset_ = 0;
                 total_dimension_ = 0;
-                layout_dirty_ = false;
+                layout_dirty_.store(false, std::memory_order_release);
                 return;
             }
 
@@ -525,16 +530,20 @@ namespace SplineTrajectory
 
             derivatives_offset_ = offset;
             total_dimension_ = derivatives_offset_ + countOptimizedDerivativeBlocks() * DIM;
-            layout_dirty_ = false;
+            layout_dirty_.store(false, std::memory_order_release);
         }
 
         void ensureLayoutCache() const
         {
-            if (!layout_dirty_)
+            if (!layout_dirty_.load(std::memory_order_acquire))
             {
                 return;
             }
-            rebuildLayoutCache();
+            std::lock_guard<std::mutex> lock(layout_mutex_);
+            if (layout_dirty_.load(std::memory_order_relaxed))
+            {
+                rebuildLayoutCache();
+            }
         }
         
         static constexpr double MIN_VALID_DURATION = 1e-3; // 1 ms
@@ -557,12 +566,9 @@ namespace SplineTrajectory
               rho_energy_(other.rho_energy_),
               integral_num_steps_(other.integral_num_steps_),
               default_time_map_(other.default_time_map_),
-              default_spatial_map_(other.default_spatial_map_),
-              spatial_layout_(other.spatial_layout_),
-              derivatives_offset_(other.derivatives_offset_),
-              total_dimension_(other.total_dimension_),
-              layout_dirty_(other.layout_dirty_)
+              default_spatial_map_(other.default_spatial_map_)
         {
+            // the layout cache is not copied: it is rebuilt on first use (layout_dirty_ starts true)
             active_time_map_ = (other.active_time_map_ == &other.default_time_map_)
                               ? &default_time_map_
                               : other.active_time_map_;
@@ -589,10 +595,6 @@ namespace SplineTrajectory
                 integral_num_steps_ = other.integral_num_steps_;
                 default_time_map_ = other.default_time_map_;
                 default_spatial_map_ = other.default_spatial_map_;
-                spatial_layout_ = other.spatial_layout_;
-                derivatives_offset_ = other.derivatives_offset_;
-                total_dimension_ = other.total_dimension_;
-                layout_dirty_ = other.layout_dirty_;
 
                 active_time_map_ = (other.active_time_map_ == &other.default_time_map_)
                                   ? &default_time_map_
@@ -605,6 +607,9 @@ namespace SplineTrajectory
                     internal_ws_ = std::unique_ptr<Workspace>(new Workspace(*other.internal_ws_));
                 else
                     internal_ws_.reset();
+
+                // the layout cache is not copied: it is rebuilt on first use
+                markLayoutDirty();
             }
             return *this;
         }
